@@ -54,6 +54,19 @@ def to_bytes(resp):
     raise TypeError(f"unexpected return value {resp!r}")
 
 
+def describe(resp):
+    """(serialized bytes, python class path, runtime descriptor full name) of a returned message."""
+    if resp is None:
+        return None, None, None
+    b, cls = to_bytes(resp)
+    t = type(resp)
+    if hasattr(t, "pb") and hasattr(t, "serialize"):
+        full = t.pb(resp).DESCRIPTOR.full_name
+    else:
+        full = resp.DESCRIPTOR.full_name
+    return b, cls, full
+
+
 def exc_info(e):
     d = {"cls": type(e).__name__, "mod": type(e).__module__}
     code = getattr(e, "grpc_status_code", None)
@@ -63,6 +76,7 @@ def exc_info(e):
     if isinstance(e, core_exceptions.RetryError) and cause is not None:
         d["cause"] = type(cause).__name__
     d["msg"] = str(e)[:200]
+    d["api_error"] = isinstance(e, core_exceptions.GoogleAPICallError)
     return d
 
 
@@ -430,8 +444,77 @@ async def _async_paged(run, client, op):
     run.sim.ev("return", op=op["id"], value=None, cls=None)
 
 
-SYNC_EXEC = {"unary": _sync_unary, "paged": _sync_paged}
-ASYNC_EXEC = {"unary": _async_unary, "paged": _async_paged}
+def _ev_msg(run, kind, op, resp):
+    b, cls, full = describe(resp)
+    run.sim.ev(kind, op=op["id"], value=None if b is None else b.hex(), cls=cls, full=full)
+
+
+def _sync_lro(run, client, op):
+    fn = client_method(client, op["method"])
+    args, kwargs = run.build_call(op, False)
+    _invoke_ev(run, op)
+    try:
+        fut = fn(*args, **kwargs)
+    except Exception as e:  # noqa
+        run.sim.ev("raise", op=op["id"], stage="initial", **exc_info(e))
+        return
+    if not hasattr(fut, "result"):
+        _ev_msg(run, "return", op, fut)     # raw Operation (method without operation_info)
+        return
+    run.sim.ev("future", op=op["id"], cls=f"{type(fut).__module__}.{type(fut).__qualname__}")
+    try:
+        if op.get("read_metadata"):
+            _ev_msg(run, "metadata", op, fut.metadata)
+        res = fut.result(**({"timeout": op["result_timeout"]} if op.get("result_timeout") else {}))
+    except Exception as e:  # noqa
+        run.sim.ev("raise", op=op["id"], stage="result", **exc_info(e))
+        return
+    _ev_msg(run, "result", op, res)
+    try:
+        _ev_msg(run, "metadata_after", op, fut.metadata)
+    except Exception as e:  # noqa
+        run.sim.ev("raise", op=op["id"], stage="metadata_after", **exc_info(e))
+        return
+    run.sim.ev("return", op=op["id"], value=None, cls=None)
+
+
+async def _async_lro(run, client, op):
+    fn = client_method(client, op["method"])
+    args, kwargs = run.build_call(op, True)
+    _invoke_ev(run, op)
+    try:
+        fut = await fn(*args, **kwargs)
+    except asyncio.CancelledError:
+        run.sim.ev("cancelled", op=op["id"])
+        raise
+    except Exception as e:  # noqa
+        run.sim.ev("raise", op=op["id"], stage="initial", **exc_info(e))
+        return
+    if not hasattr(fut, "result"):
+        _ev_msg(run, "return", op, fut)
+        return
+    run.sim.ev("future", op=op["id"], cls=f"{type(fut).__module__}.{type(fut).__qualname__}")
+    try:
+        if op.get("read_metadata"):
+            _ev_msg(run, "metadata", op, fut.metadata)
+        res = await fut.result(**({"timeout": op["result_timeout"]} if op.get("result_timeout") else {}))
+    except asyncio.CancelledError:
+        run.sim.ev("cancelled", op=op["id"])
+        raise
+    except Exception as e:  # noqa
+        run.sim.ev("raise", op=op["id"], stage="result", **exc_info(e))
+        return
+    _ev_msg(run, "result", op, res)
+    try:
+        _ev_msg(run, "metadata_after", op, fut.metadata)
+    except Exception as e:  # noqa
+        run.sim.ev("raise", op=op["id"], stage="metadata_after", **exc_info(e))
+        return
+    run.sim.ev("return", op=op["id"], value=None, cls=None)
+
+
+SYNC_EXEC = {"unary": _sync_unary, "paged": _sync_paged, "lro": _sync_lro}
+ASYNC_EXEC = {"unary": _async_unary, "paged": _async_paged, "lro": _async_lro}
 
 
 # ---------------------------------------------------------------------- default scripted server
